@@ -150,7 +150,8 @@ def run(ctx: core.Ctx) -> core.Outcome:
             ev = by_id[tid]["ev"][line - 1]
             viols.append(core.Violation(key=clause, case=tid, detail=str({k: v for k, v in ev.items()})[:600], replay={"event": ev}))
     posts = sum(len(e["posted"]) for t in traces for e in t["ev"])
-    cov = dict(states=res.distinct, transitions=res.generated, design_spec="WebPush", publishes=sum(len(t["ev"]) for t in traces),
+    cov = dict(states=res.distinct, transitions=res.generated, design_spec="WebPush", traces_validated_against_impl=len(traces),
+               samples=[{k: v for k, v in traces[0]["ev"][0].items()}], publishes=sum(len(t["ev"]) for t in traces),
                databases=len(traces), notifications_posted=posts, **stats)
     return core.Outcome(level="model_checking", coverage=cov, violations=viols, assumptions=[
         "the HTTP post (_post_webpush) is stubbed and records the subscription id; VAPID key setup is bypassed",
